@@ -30,6 +30,7 @@ func destinationTables(c *Ctx) {
 	mk := func() (*interp.Machine, func(name string, fields map[string]interp.Value) *interp.Struct) {
 		m := interp.New(prog)
 		tmpl.InstallTypesModels(m, prog)
+		tmpl.RemoveVarModels(m)
 		return m, func(name string, fields map[string]interp.Value) *interp.Struct {
 			pk := prog.ByPath[load.PkgRegistry]
 			tn := pk.Types.Scope().Lookup(name)
